@@ -427,6 +427,27 @@ def check_label_slices_vs_indexing(ctx, spec, n, origin):
                 if r[0] != r[1]:
                     ctx.violation('eval-label-slice-vs-indexing', f'eval({text!r}) on {spec.kind} selects {r[0]}; label indexing obj["X", {a!r}:{b!r}:{step}] selects {r[1]}', case)
                     return
+    # the same container relabelled in place (its periods re-ordered), the same expression texts again: labels are resolved
+    # against the span the container has *now*
+    prim = [l[0] for l in spec.labels]
+    if n >= 2 and all(isinstance(x, (int, str)) and not isinstance(x, bool) and spec.text_labels[k] == str(x) for k, x in enumerate(prim)):
+        c.span = prim[1:] + prim[:1]
+        ctx.count('relabelled_containers')
+        for i in range(n):
+            for j in range(n):
+                for step in (None, 2, -1):
+                    text = f'X[`{spec.text_labels[i]}`:`{spec.text_labels[j]}`' + ('' if step is None else f':{step}') + ']'
+                    case = {'kind': 'label-slice-vs-indexing', 'span_kind': spec.kind, 'n': n, 'origin': origin, 'text': text, 'relabelled': True}
+                    r = []
+                    for f in (lambda: c.eval(text), lambda: c['X', prim[i]:prim[j]:step], lambda: c.eval(f'X[`{spec.text_labels[i]}`]'), lambda: c['X', prim[i]]):
+                        try:
+                            r.append(('ok', np.asarray(f()).tolist()))
+                        except Exception as e:
+                            r.append(('exc', type(e).__name__))
+                    ctx.count('label_slices_vs_indexing')
+                    if r[0] != r[1] or r[2] != r[3]:
+                        ctx.violation('eval-label-slice-vs-indexing', f'after the span was relabelled in place, eval({text!r}) on {spec.kind} selects {r[0]} / {r[2]}; label indexing selects {r[1]} / {r[3]}', case)
+                        return
 
 
 def check_precedence(ctx, spec, n, origin, rng):
